@@ -95,6 +95,68 @@ fn brute(case: &Case, src: usize) -> Vec<Option<i64>> {
     best
 }
 
+/// A token-simple path from the source (no token twice): markets used, and the cost on arrival at each
+/// token after the source.
+struct SimplePath {
+    mkts: Vec<usize>,
+    last: usize,
+    prefix_costs: Vec<i64>,
+    nodes: Vec<usize>,
+}
+
+/// All token-simple paths from `src` with 1..=max_steps edges (what the depth-first search can walk).
+fn simple_paths(case: &Case, src: usize) -> Vec<SimplePath> {
+    let mut out = vec![];
+    fn rec(case: &Case, cur: usize, on_path: &mut Vec<bool>, mkts: &mut Vec<usize>, costs: &mut Vec<i64>, nodes: &mut Vec<usize>, out: &mut Vec<SimplePath>) {
+        if mkts.len() == case.max_steps {
+            return;
+        }
+        for k in 0..case.markets.len() {
+            for (c, next) in step_all(case, k, cur) {
+                if on_path[next] {
+                    continue;
+                }
+                let cost = costs.last().copied().unwrap_or(0) + c;
+                on_path[next] = true;
+                mkts.push(k);
+                costs.push(cost);
+                nodes.push(next);
+                out.push(SimplePath { mkts: mkts.clone(), last: next, prefix_costs: costs.clone(), nodes: nodes.clone() });
+                rec(case, next, on_path, mkts, costs, nodes, out);
+                nodes.pop();
+                costs.pop();
+                mkts.pop();
+                on_path[next] = false;
+            }
+        }
+    }
+    let mut on_path = vec![false; case.n_tokens];
+    on_path[src] = true;
+    rec(case, src, &mut on_path, &mut vec![], &mut vec![], &mut vec![], &mut out);
+    out
+}
+
+/// Residual bound of the listed depth-first-search findings. The search prunes an arrival at a token
+/// whose distance is not better than the best one seen (and overwrites the predecessor on a better one),
+/// so it can only lose a path P when some token on P is also reached, within the step limit, by a
+/// *different* token-simple route that is at least as cheap as P's own prefix to that token. `true` when
+/// every candidate path (the token-simple paths to `dst` cheaper than what was returned, or all of them
+/// when nothing was returned) has such a competing arrival — or when there is no token-simple candidate
+/// at all (the better path revisits a token, which a depth-first search over tokens never walks).
+fn dfs_loss_is_explained(all: &[SimplePath], dst: usize, returned_cost: Option<i64>) -> bool {
+    let candidates: Vec<&SimplePath> = all
+        .iter()
+        .filter(|p| p.last == dst && returned_cost.map(|g| *p.prefix_costs.last().unwrap() < g).unwrap_or(true))
+        .collect();
+    candidates.iter().all(|p| {
+        (0..p.mkts.len()).any(|k| {
+            let v = p.nodes[k];
+            let c = p.prefix_costs[k];
+            all.iter().any(|q| q.last == v && q.mkts[..] != p.mkts[..=k] && *q.prefix_costs.last().unwrap() <= c)
+        })
+    })
+}
+
 /// Does any negative-cost simple directed cycle exist (edge-level, any start)?
 fn has_negative_cycle(case: &Case) -> bool {
     // edges: (from, to, cost)
@@ -274,6 +336,7 @@ pub fn run(args: &Args) -> i32 {
                     continue;
                 }
                 let best = brute(&case, src);
+                let simple = simple_paths(&case, src);
                 for skip_bf in [false, true] {
                     let paths = match guard(|| graph.best_swap_paths(&token_pk(src), skip_bf)) {
                         Ok(Ok(p)) => p,
@@ -413,14 +476,28 @@ pub fn run(args: &Args) -> i32 {
                                 (Some(_), Some(bc)) => {
                                     let got = *cost_alt.iter().min().unwrap();
                                     if bc < got {
-                                        m.violation(&format!("C42:{mode}:better_path_within_limit_exists"), wit("a strictly cheaper market-simple path within max_steps exists"));
+                                        if mode == "dfs" && !dfs_loss_is_explained(&simple, dst, Some(got)) {
+                                            m.violation("C42:dfs:better_path_lost_without_competing_arrival", wit("a strictly cheaper token-simple path within max_steps exists and no token on it is reached as cheaply by another route"));
+                                        } else {
+                                            if mode == "dfs" {
+                                                m.count("dfs_loss_explained_by_competing_arrival");
+                                            }
+                                            m.violation(&format!("C42:{mode}:better_path_within_limit_exists"), wit("a strictly cheaper market-simple path within max_steps exists"));
+                                        }
                                     } else {
                                         m.count("optimal_or_tied");
                                     }
                                 }
                                 (None, Some(_)) => {
                                     if dst != src {
-                                        m.violation(&format!("C42:{mode}:no_path_returned_but_path_within_limit_exists"), wit("nothing recommended although a path within max_steps exists"));
+                                        if mode == "dfs" && !dfs_loss_is_explained(&simple, dst, None) {
+                                            m.violation("C42:dfs:path_lost_without_competing_arrival", wit("nothing recommended although a token-simple path within max_steps exists and no token on it is reached as cheaply by another route"));
+                                        } else {
+                                            if mode == "dfs" {
+                                                m.count("dfs_loss_explained_by_competing_arrival");
+                                            }
+                                            m.violation(&format!("C42:{mode}:no_path_returned_but_path_within_limit_exists"), wit("nothing recommended although a path within max_steps exists"));
+                                        }
                                     }
                                 }
                                 (Some(_), None) => {
